@@ -1,6 +1,7 @@
 package main
 
 import (
+	"strings"
 	"encoding/json"
 	"fmt"
 	"go/constant"
@@ -148,4 +149,23 @@ func (u *Unit) catalogueMember(x Term, class string) Term {
 		return u.fresh(SBool, "no_catalogue")
 	}
 	return Or(alts...)
+}
+
+
+// textKeepingWrappers: fmt's %w wrapper, and the library's error types whose Error method carries the clause
+// message_includes_cause (proved on that method; used here across the dynamic call err.Error()).
+func (e *Engine) textKeepingWrappers() []string {
+	out := []string{"*fmt.wrapError"}
+	for _, k := range sortedKeys(e.cs.Funcs) {
+		fc := e.cs.Funcs[k]
+		if !strings.HasSuffix(k, ".Error") {
+			continue
+		}
+		for _, c := range fc.Ensures {
+			if strings.HasSuffix(c.Label, "message_includes_cause") {
+				out = append(out, "*"+strings.TrimSuffix(k, ".Error"))
+			}
+		}
+	}
+	return out
 }
